@@ -512,6 +512,8 @@ def readers(ctx, R="R-C11-readers"):
               "FLOAT/DOUBLE/PCM_32 subtypes decode to float32/float64/int32 (PCM_16 and the rest to int16)", "subtype table is %s" % sub, structural=True)
     # keyed containers
     f, ev, val = _reader_value(prog, "_numpy_archive_read_signal")
+    from .. import scenario as SC
+    val = SC.lift_conds(val)
     s = S.show(val)
     ok = "getitem(np.load(rfilename, kw:star(kwargs)), key)" in s.replace("star(kwargs)", "star(kwargs)") or "getitem(np.load(" in s and ", key)" in s
     ctx.check(ok and "'arr_0'" in s, R, f, f.node, "npz: `key` selects the entry, arr_0 otherwise", "npz reader returns %s" % s[:160])
